@@ -22,8 +22,56 @@ SUFFIXES = (".h", ".H", ".hpp", ".cpp", ".C", ".c", ".txx", ".i")
 BUILD_DEFINES = {"USE_OMP": "1", "OPENMP_RANGEFOR": "1", "OPENMP_ITERATOR": "1", "OPENMP_UNSIGNED": "1",
                  "USE_PROGRESSBAR": "1", "OPENMEEG_VERIF": "1", "__linux__": "1", "__GNUC__": "12", "__cplusplus": "201703"}
 
+# Configurations under which the conditional compilation is evaluated.  `gcc` is the suite build; `clang` is the second
+# observation point of the property (clang/libomp build of the same sources); `apple` is a macOS build (clang).
+def _cfg(extra, drop=()):
+    d = dict(BUILD_DEFINES); d.update(extra)
+    for k in drop: d.pop(k, None)
+    return d
+CONFIGS = [("gcc", _cfg({})),
+           ("clang", _cfg({"__clang__": "1", "__GNUC__": "4"})),
+           ("apple", _cfg({"__clang__": "1", "__GNUC__": "4", "__APPLE__": "1"}, drop=("__linux__",)))]
+# macros a guard around / inside a parallel region may mention (everything else is reported)
+KNOWN_GUARD_MACROS = {"NO_OPENMP", "OPENMP_RANGEFOR", "OPENMP_ITERATOR", "OPENMP_UNSIGNED", "USE_OMP", "USE_PROGRESSBAR",
+                      "OPENMEEG_VERIF", "__APPLE__", "__clang__"}
+
 class Unknown(Exception):
     pass
+
+def directive_macros(rest):
+    return {w for w in re.findall(r"[A-Za-z_]\w*", rest) if w != "defined"}
+
+def guard_problems(rel, clean, spans):
+    """clean: comment-free text of a file.  Every conditional directive that encloses an `omp` pragma, or that lies
+    inside one of the line spans of a translated region, may only mention known macros (or macros #defined in the file)."""
+    lines = clean.split("\n"); local = set(); stack = []; out = []; enclosing = []   # stack entries: [line, macros]
+    for ln, line in enumerate(lines, 1):
+        m = re.match(r"\s*#\s*(\w+)\s*(.*)", line)
+        if not m: continue
+        d, rest = m.group(1), m.group(2)
+        if d == "define":
+            mm = re.match(r"(\w+)", rest)
+            if mm: local.add(mm.group(1))
+        elif d in ("if", "ifdef", "ifndef"):
+            stack.append([ln, directive_macros(rest)])
+            for a, b in spans:
+                if a <= ln <= b: enclosing.append((ln, directive_macros(rest)))
+        elif d == "elif":
+            if stack: stack[-1][1] |= directive_macros(rest)
+            for a, b in spans:
+                if a <= ln <= b: enclosing.append((ln, directive_macros(rest)))
+        elif d == "endif":
+            if stack: stack.pop()
+        elif d == "pragma" and re.match(r"omp\b", rest):
+            for l0, ms in stack: enclosing.append((l0, set(ms)))
+    seen = set()
+    for l0, ms in enclosing:
+        bad = sorted(x for x in ms if x not in KNOWN_GUARD_MACROS and x not in local)
+        if bad and (l0, tuple(bad)) not in seen:
+            seen.add((l0, tuple(bad)))
+            out.append("%s:%d: a guard around / inside a parallel region or omp critical depends on %s, which is not among the configurations the model evaluates (%s)"
+                       % (rel, l0, ", ".join(bad), ", ".join(t for t, _ in CONFIGS)))
+    return out
 
 # ------------------------------------------------------------------ lexical helpers
 def strip_comments(src):
@@ -424,6 +472,7 @@ class Gen:
     def simple(self, text, crit):
         ctx = self.ctx; t = text.strip()
         if not t: return None
+        if re.fullmatch(r"OM_VERIF_\w+\s*\(.*\)", t, re.S): return None      # hook marker (add-only instrumentation)
         m = re.fullmatch(r"\+\+\s*(%s)" % ID, t)
         if m:
             if m.group(1) == "pb" or m.group(1).startswith("pb"):
@@ -636,6 +685,8 @@ def analyse_file(repo, rel, defines, helpers_text, pb_empty, used_names):
         if re.fullmatch(r"#\s*pragma\s+omp\s+critical(\s*\(\w+\))?", prag):
             if not any(r["body_span"][0] < pos < r["body_span"][1] for r in regions):
                 problems.append("%s:%d: omp critical outside any translated parallel loop" % (rel, text.count("\n", 0, pos) + 1))
+    for r in regions:
+        r["line_span"] = (text.count("\n", 0, r["body_span"][0]) + 1, text.count("\n", 0, r["body_span"][1]) + 1)
     return regions, dead, problems
 
 def analyse_region(text, pos, rel, line, helpers, pb_empty, used_names):
@@ -808,10 +859,8 @@ def accessor_formulas(repo):
     return out
 
 # ------------------------------------------------------------------ driver
-def generate(repo, out_dir):
-    import gencoq
+def gen_config(repo, tag, defines, files):
     problems = []
-    defines = dict(BUILD_DEFINES)
     try:
         pb_empty = progressbar_empty(repo, defines)
     except Unknown as e:
@@ -820,31 +869,15 @@ def generate(repo, out_dir):
         te = thread_exception(repo, defines)
     except Unknown as e:
         problems.append(str(e)); te = dict(capture_locked=False, capture_stores=False, run_catches_all=False, rethrow_rethrows=False)
-    try:
-        acc = accessor_formulas(repo)
-    except Exception as e:
-        problems.append("accessor formulas: %r" % e); acc = {}
-    for k, v in acc.items():
-        if not v: problems.append("accessor formula %s no longer has the text the slot model assumes" % k)
     ops_h = os.path.join(repo, "OpenMEEG", "include", "operators.h")
     helpers_text, _ = preprocess(strip_comments(open(ops_h, errors="replace").read()), defines)
-    files = []
-    for d in SRC_DIRS:
-        for root, dirs, fs in os.walk(os.path.join(repo, d)):
-            dirs.sort()
-            for f in sorted(fs):
-                if f.endswith(SUFFIXES):
-                    p = os.path.join(root, f)
-                    try: txt = open(p, errors="replace").read()
-                    except OSError: continue
-                    if re.search(r"#\s*pragma\s+omp\b", txt): files.append(os.path.relpath(p, repo))
     regions = []; dead = []; used = set()
     for rel in files:
         r, dd, pr = analyse_file(repo, rel, defines, helpers_text, pb_empty, used)
         regions += r; dead += dd; problems += pr
-    # ---- emit
     L = ["(* GENERATED by translators/t_parloops.py from the current sources -- do not edit.",
-         "   One descriptor per LIVE `#pragma omp parallel for` (defines: %s)." % " ".join(sorted(k for k in BUILD_DEFINES if not k.startswith("__"))),
+         "   Configuration `%s`: one descriptor per `#pragma omp parallel for` that is LIVE under the defines" % tag,
+         "   %s." % " ".join(sorted(defines)),
          "   Dead under these defines: %s *)" % (", ".join(dead) or "none"),
          "From OM Require Import Base.Lists Geom.ParLoops.", "Local Open Scope Z_scope.", "",
          "Notation acts := (map (@Act _ _)) (only parsing).", ""]
@@ -856,15 +889,61 @@ def generate(repo, out_dir):
     L.append("Definition gen_region_names : list (nat * Z) := [%s].   (* (ordinal, source line) *)" % "; ".join("(%d%%nat, %d)" % (k, r["line"]) for k, r in enumerate(regions)))
     L.append("Definition gen_region_count : nat := %d." % len(regions))
     L.append("Definition gen_dead_pragmas : nat := %d." % len(dead))
+    L.append("Definition gen_critical_sections : nat := %d." % sum(1 for r in regions if r["critical"]))
     L.append("Definition gen_progressbar_empty : bool := %s." % ("true" if pb_empty else "false"))
     L.append("Definition gen_te_capture_locked : bool := %s." % ("true" if te["capture_locked"] else "false"))
     L.append("Definition gen_te_capture_stores : bool := %s." % ("true" if te["capture_stores"] else "false"))
     L.append("Definition gen_te_run_catches_all : bool := %s." % ("true" if te["run_catches_all"] else "false"))
     L.append("Definition gen_te_rethrow_rethrows : bool := %s." % ("true" if te["rethrow_rethrows"] else "false"))
     L.append("")
-    gencoq.put(os.path.join(out_dir, "GenParLoops.v"), "\n".join(L))
-    js = dict(regions=[{k: v for k, v in r.items() if k not in ("body_span",)} for r in regions], dead=dead, problems=problems,
-              progressbar_empty=pb_empty, thread_exception=te, accessors=acc, files=files, defines=sorted(BUILD_DEFINES))
+    return dict(tag=tag, text="\n".join(L), regions=regions, dead=dead, problems=problems, pb_empty=pb_empty, te=te)
+
+def generate(repo, out_dir):
+    import gencoq
+    problems = []
+    try:
+        acc = accessor_formulas(repo)
+    except Exception as e:
+        problems.append("accessor formulas: %r" % e); acc = {}
+    for k, v in acc.items():
+        if not v: problems.append("accessor formula %s no longer has the text the slot model assumes" % k)
+    files = []
+    for d in SRC_DIRS:
+        for root, dirs, fs in os.walk(os.path.join(repo, d)):
+            dirs.sort()
+            for f in sorted(fs):
+                if f.endswith(SUFFIXES):
+                    p = os.path.join(root, f)
+                    try: txt = open(p, errors="replace").read()
+                    except OSError: continue
+                    if re.search(r"#\s*pragma\s+omp\b", txt): files.append(os.path.relpath(p, repo))
+    cfgs = {}
+    for tag, defines in CONFIGS:
+        c = gen_config(repo, tag, defines, files)
+        cfgs[tag] = c
+        problems += ["[%s] %s" % (tag, x) if tag != "gcc" else x for x in c["problems"] if tag == "gcc" or x not in cfgs["gcc"]["problems"]]
+        gencoq.put(os.path.join(out_dir, "GenParLoops_%s.v" % tag), c["text"])
+    # guards: every conditional around a pragma or inside a region (of any configuration) mentions known macros only
+    for rel in files:
+        spans = sorted({tuple(r["line_span"]) for c in cfgs.values() for r in c["regions"] if r["file"] == rel})
+        problems += guard_problems(rel, strip_comments(open(os.path.join(repo, rel), errors="replace").read()), spans)
+    # the configuration of the suite build under its historical name
+    gencoq.put(os.path.join(out_dir, "GenParLoops.v"),
+               "(* GENERATED: the configuration the suite is built with (g++). *)\nFrom OM Require Export Gen.GenParLoops_gcc.\n")
+    # the per-loop proofs are checked against the clang configuration too: same script, other descriptors
+    tpl = os.path.join(os.path.dirname(out_dir), "Geom", "ParLoopsLoops.v")
+    if os.path.exists(tpl):
+        t = open(tpl).read()
+        t2 = re.sub(r"Gen\.GenParLoops\b(?!_)", "Gen.GenParLoops_clang", t)
+        gencoq.put(os.path.join(out_dir, "ParLoopsLoops_clang.v"),
+                   "(* GENERATED by translators/t_parloops.py: coq/Geom/ParLoopsLoops.v re-checked against the descriptors of the clang configuration. *)\n" + t2)
+    g = cfgs["gcc"]
+    def strip(r): return {k: v for k, v in r.items() if k not in ("body_span",)}
+    js = dict(regions=[strip(r) for r in g["regions"]], dead=g["dead"], problems=problems,
+              progressbar_empty=g["pb_empty"], thread_exception=g["te"], accessors=acc, files=files, defines=sorted(BUILD_DEFINES),
+              configs={t: dict(defines=sorted(dict(CONFIGS)[t]), dead=c["dead"], critical=[r["name"] for r in c["regions"] if r["critical"]],
+                               regions=[dict(name=r["name"], where="%s:%d" % (r["file"], r["line"]), critical=r["critical"], wrapped=r["wrapped"], rethrow=r["rethrow"]) for r in c["regions"]])
+                       for t, c in cfgs.items()})
     gencoq.put(os.path.join(out_dir, "genparloops.json"), json.dumps(js, indent=1, sort_keys=True))
     return problems
 
@@ -873,4 +952,5 @@ if __name__ == "__main__":
     out = os.path.join(os.path.dirname(HERE), "coq", "Gen")
     pr = generate(ombuild.REPO, out)
     for p in pr: print("PROBLEM:", p)
-    print(open(os.path.join(out, "GenParLoops.v")).read())
+    print(open(os.path.join(out, "genparloops.json")).read()[:0])
+    for t, _ in CONFIGS: print(t, [l for l in open(os.path.join(out, "GenParLoops_%s.v" % t)).read().split("\n") if "Crit" in l or "gen_critical" in l])
